@@ -199,4 +199,70 @@ theorem bind_checked_first (av : List ProofKind) (w : ProofKind) (e : String) (r
     dispatch av w true (.error e) run = dispatch av w true (.error e) run' := by
   unfold dispatch; split <;> simp
 
+/-! ### lists of proofs -/
+
+theorem selectProof_mem {α : Type} (proofs : List (ProofKind × α)) (wanted : ProofKind) (p : α)
+    (h : selectProof proofs wanted = some p) : (wanted, p) ∈ proofs := by
+  induction proofs with
+  | nil => simp [selectProof] at h
+  | cons kp rest ih =>
+    obtain ⟨k, q⟩ := kp
+    unfold selectProof at h
+    split at h
+    · rename_i hk
+      simp at h
+      subst h; subst hk
+      exact List.mem_cons_self
+    · exact List.mem_cons_of_mem _ (ih h)
+
+/-- **the claim compared is the claim proven**: a credential with any list of proofs is accepted only if *one and the same*
+    proof of the requested type both carries a claim the credential is bound to and verifies over that claim - never the
+    binding of one proof combined with the validity of another -/
+theorem list_accepted_one_proof_bound_and_valid {α : Type} (proofs : List (ProofKind × α)) (wanted : ProofKind)
+    (claimOk : α → Bool) (bind : α → Except String Unit) (run : α → Outcome)
+    (h : verifyList proofs wanted claimOk bind run = .ok) :
+    ∃ p, (wanted, p) ∈ proofs ∧ claimOk p = true ∧ bind p = .ok () ∧ run p = .ok := by
+  unfold verifyList at h
+  split at h
+  · simp at h
+  · rename_i p hsel
+    split at h
+    · simp at h
+    · rename_i hc
+      split at h
+      · simp at h
+      · rename_i hb
+        refine ⟨p, selectProof_mem proofs wanted p hsel, by simpa using hc, hb, ?_⟩
+        split at h
+        · simp at h
+        · exact h
+
+/-- proofs of other types in front, and anything behind, play no part -/
+theorem list_only_first_of_type {α : Type} (pre rest : List (ProofKind × α)) (wanted : ProofKind) (p : α)
+    (claimOk : α → Bool) (bind : α → Except String Unit) (run : α → Outcome)
+    (hpre : ∀ kq ∈ pre, kq.1 ≠ wanted) :
+    verifyList (pre ++ (wanted, p) :: rest) wanted claimOk bind run = verifyList [(wanted, p)] wanted claimOk bind run := by
+  have hs : ∀ (l : List (ProofKind × α)), (∀ kq ∈ l, kq.1 ≠ wanted) →
+      selectProof (l ++ (wanted, p) :: rest) wanted = some p := by
+    intro l
+    induction l with
+    | nil => intro _; simp [selectProof]
+    | cons kq l ih =>
+      intro hl
+      obtain ⟨k, q⟩ := kq
+      have hk : k ≠ wanted := hl (k, q) List.mem_cons_self
+      simp only [List.cons_append, selectProof, hk, if_false]
+      exact ih (fun x hx => hl x (List.mem_cons_of_mem _ hx))
+  unfold verifyList
+  rw [hs pre hpre]
+  simp [selectProof]
+
+/-- the shape a forger needs does not help: a first proof that is bound but does not verify, followed by a proof that
+    verifies but is bound to another credential, is rejected - in either order -/
+example : verifyList [(.bjj, (true, false)), (.bjj, (false, true))] .bjj (fun _ => true)
+      (fun p => if p.1 then .ok () else .error "proof generated for another credential") (fun p => if p.2 then .ok else .err "signature") ≠ .ok ∧
+    verifyList [(.bjj, (false, true)), (.bjj, (true, false))] .bjj (fun _ => true)
+      (fun p => if p.1 then .ok () else .error "proof generated for another credential") (fun p => if p.2 then .ok else .err "signature") ≠ .ok := by
+  constructor <;> decide
+
 end Gsp.Props.C06
